@@ -1,5 +1,5 @@
 #!/bin/bash
-# confirm.sh <ID> <k>: independently confirm a seeded mutant in its scratch worktree:
+# confirm.sh <ID> <k> (env CONFIRM_ARGS = extra cargo args for the demonstration, CONFIRM_RUSTFLAGS): independently confirm a seeded mutant in its scratch worktree:
 # suite passes with the mutant; demo fails with it and passes without it.
 ID=$1; K=$2; WT=/tmp/wt/$ID; M=$WT/out/m$K
 export CARGO_NET_OFFLINE=true CARGO_TARGET_DIR=$WT/target
@@ -8,9 +8,9 @@ git checkout -q -- . ; rm -f tests/demo_confirm.rs
 git apply $M/patch.diff || { echo "APPLY_FAILED"; exit 8; }
 cargo test --workspace --no-fail-fast --offline > $M/suite.log 2>&1; SUITE=$?
 cp $M/demo.rs tests/demo_confirm.rs
-cargo test --offline --test demo_confirm > $M/demo_with.log 2>&1; WITH=$?
+RUSTFLAGS="$CONFIRM_RUSTFLAGS" cargo test --offline $CONFIRM_ARGS --test demo_confirm > $M/demo_with.log 2>&1; WITH=$?
 git checkout -q -- .
-cargo test --offline --test demo_confirm > $M/demo_without.log 2>&1; WITHOUT=$?
+RUSTFLAGS="$CONFIRM_RUSTFLAGS" cargo test --offline $CONFIRM_ARGS --test demo_confirm > $M/demo_without.log 2>&1; WITHOUT=$?
 rm -f tests/demo_confirm.rs
 echo "{\"suite_rc_with_mutant\": $SUITE, \"demo_rc_with_mutant\": $WITH, \"demo_rc_without\": $WITHOUT}" > $M/confirm.json
 cat $M/confirm.json
